@@ -1,5 +1,6 @@
 import SlipVerif.Lemmas.LoadForm
 import SlipVerif.Lemmas.SnapshotOrder
+import SlipVerif.Lemmas.Instances
 /-
   C19 — property theorems about SlipVerif.Model.LoadForm (the model the correspondence harness
   runs against the implementation: harness/cmd/vh/c19.go).
@@ -147,6 +148,78 @@ example : HistoryOk [("a", []), ("z", []), ("b", ["a"]), ("c", ["a"]), ("d", ["b
   simp [HistoryOk]
 example : (snapshotOrder (closeHistory [("a", []), ("z", []), ("b", ["a"]), ("c", ["a"]), ("d", ["b", "c"])] [])).map (·.name)
     = ["a", "z", "b", "c", "d"] := by decide
+
+/-! ## instances: every slot state survives the load form -/
+
+/-- **Instance round trip.** Whatever state make-instance gives the slots (`fresh`: the defaults of
+    the class, bound or not), evaluating the load form of an instance — for every bound slot, nil
+    included, a setf with the load form of the value; for an unbound slot a makunbound when the
+    class gives the slot a default — yields exactly the slot states of the original, slot by slot. -/
+theorem instance_roundtrip (slots fresh : List (String × Slot))
+    (hn : (slots.map Prod.fst).Nodup) (hw : ∀ x ∈ slots, slotWf x.2 = true)
+    (hf : fresh.map Prod.fst = slots.map Prod.fst) :
+    rebuildInstance fresh (instanceLoadOps fresh slots) = .ok slots :=
+  rebuild_sub fresh slots hn (hf ▸ hn) hw slots fresh hf (fun _ h => h) (fun _ h => h)
+
+/-- an instance with a nil slot, an unbound slot and a list valued slot, of a class whose
+    defaults are t, 7 and unbound -/
+def sampleSlots : List (String × Slot) :=
+  [("enabled", .bound .nil), ("count", .unbound), ("tags", .bound (.cons (.sym "a") (.cons (.str "b") .nil)))]
+def sampleFresh : List (String × Slot) := [("enabled", .bound .t), ("count", .bound (.int 7)), ("tags", .unbound)]
+example : (sampleSlots.map Prod.fst).Nodup ∧ (∀ x ∈ sampleSlots, slotWf x.2 = true) ∧
+    sampleFresh.map Prod.fst = sampleSlots.map Prod.fst := by decide
+
+/-- Leaving out the slots that hold nil (as if a fresh instance had nil there) loses the state of
+    a slot whose class default is not nil: the rebuilt instance has the default back. -/
+theorem instance_skip_nil_loses_state :
+    rebuildInstance sampleFresh (instanceLoadOpsSkipNil sampleFresh sampleSlots) =
+      .ok [("enabled", .bound .t), ("count", .unbound), ("tags", .bound (.cons (.sym "a") (.cons (.str "b") .nil)))] := by
+  decide
+
+/-! ## flavors: the rebuilt flavor has the same effective defaults -/
+
+/-- **Flavor load form.** The instance variables written in the load form of a flavor are the
+    entries of its effective defaults that differ from what precedence inheritance alone gives
+    (the default of the FIRST inherited flavor that has the variable). Defining the flavor again
+    from them, with the same inherited flavors, gives the same effective default for EVERY
+    variable. -/
+theorem flavor_rebuild_same_defaults (w : List Flav) (f : Flav)
+    (hn : (f.defaults.map Prod.fst).Nodup) (hc : Complete w f) (v : String) :
+    lookupS v (effective w (flavorLoadVars w f) f.inherits) = lookupS v f.defaults :=
+  rebuild_same_defaults w f hn hc v
+
+/-- the hypotheses hold for every flavor defflavor builds -/
+theorem defFlavor_complete (w : List Flav) (name : String) (own : List (String × Obj))
+    (direct : List String) (hn : (own.map Prod.fst).Nodup) :
+    Complete w (defFlavor w name own direct) ∧
+      ((defFlavor w name own direct).defaults.map Prod.fst).Nodup :=
+  ⟨complete_defFlavor w name own direct, by simpa [defFlavor] using nodup_effective w _ own hn⟩
+
+/-- **Reloading a session.** For every session of defflavor forms (fresh names, any components,
+    any re-declarations of inherited variables — chains, diamonds, mixins) the world rebuilt by
+    defining every flavor again from its load form, in the order of the world, agrees with the
+    original: same flavors, same effective default of every variable of every flavor. -/
+theorem session_reload_same_defaults (defs : List (String × List (String × Obj) × List String))
+    (h : SessionOk defs []) :
+    Agree (defFlavors defs []) (reloadFlavors flavorLoadVars [] [] (defFlavors defs [])) := by
+  have hw := worldOk_newFlavs defs [] (by simpa using h)
+  have := reload_agree (newFlavs defs []) [] [] ⟨rfl, fun _ _ => rfl⟩ hw
+  simpa [defFlavors_eq] using this
+
+/-- grand (level 5), mid inherits grand (level 1), kid inherits mid and sets level back to 5 -/
+def sampleSession : List (String × List (String × Obj) × List String) :=
+  [("grand", [("level", .int 5), ("tag", .str "g")], []), ("mid", [("level", .int 1)], ["grand"]),
+   ("kid", [("level", .int 5), ("extra", .sym "x")], ["mid"])]
+example : SessionOk sampleSession [] := by simp [SessionOk, sampleSession]
+example : (flavorLoadVars (defFlavors sampleSession []) (defFlavor (defFlavors (sampleSession.take 2) []) "kid"
+    [("level", .int 5), ("extra", .sym "x")] ["mid"])).map Prod.fst = ["level", "extra"] := by decide
+
+/-- The rule "left out when SOME inherited flavor has an equal default" is not sound: on the sample
+    session `kid` loses its `level` entry (grand has 5 too) and the rebuilt kid answers mid's 1. -/
+theorem any_ancestor_rule_loses_override :
+    lookupS "level" (flavDefaults (reloadFlavors flavorLoadVarsAny [] [] (defFlavors sampleSession [])) "kid") = some (.int 1)
+    ∧ lookupS "level" (flavDefaults (defFlavors sampleSession []) "kid") = some (.int 5) := by
+  decide
 
 /-! ## the comparator of the unrepaired snapshot -/
 
